@@ -103,7 +103,7 @@ def run(ctx):
 		if not ctx.time_left(0.8):
 			break
 		r = rng.random()
-		n = rng.randint(1, 12) if r < 0.5 else (rng.randint(1, 80) if r < 0.93 else rng.randint(100, ctx.q(300, 3000)))
+		n = rng.randint(1, 12) if r < 0.5 else (rng.randint(1, 80) if r < 0.93 else rng.randint(100, ctx.q(250, 400)))
 		pool = rng.sample(T.DIST_VALUES, rng.randint(1, 4))
 		dists = [rng.choice(pool) for _ in range(n)] if rng.random() < 0.8 else [rng.random() for _ in range(n)]
 		N = rng.choice([1, 2, 3, 5, 10, n, n + 1, n + 3, max(1, n - 1)])
